@@ -26,6 +26,22 @@ impl KnownTypeNames {
     }
 }
 
+/// The introspection types are part of every schema, even when the schema
+/// document does not spell them out.
+fn is_introspection_type_name(type_name: &str) -> bool {
+    matches!(
+        type_name,
+        "__Schema"
+            | "__Directive"
+            | "__DirectiveLocation"
+            | "__Type"
+            | "__Field"
+            | "__InputValue"
+            | "__EnumValue"
+            | "__TypeKind"
+    )
+}
+
 impl<'a> OperationVisitor<'a, ValidationErrorContext> for KnownTypeNames {
     fn enter_fragment_definition(
         &mut self,
@@ -35,7 +51,7 @@ impl<'a> OperationVisitor<'a, ValidationErrorContext> for KnownTypeNames {
     ) {
         let TypeCondition::On(fragment_type_name) = &fragment_definition.type_condition;
 
-        if visitor_context.schema.type_by_name(fragment_type_name).is_none() && !fragment_type_name.starts_with("__") {
+        if visitor_context.schema.type_by_name(fragment_type_name).is_none() && !is_introspection_type_name(fragment_type_name) {
             user_context.report_error(ValidationError {
                 error_code: self.error_code(),
                 locations: vec![fragment_definition.position],
@@ -51,7 +67,7 @@ impl<'a> OperationVisitor<'a, ValidationErrorContext> for KnownTypeNames {
         inline_fragment: &crate::static_graphql::query::InlineFragment,
     ) {
         if let Some(TypeCondition::On(fragment_type_name)) = &inline_fragment.type_condition {
-            if visitor_context.schema.type_by_name(fragment_type_name).is_none() && !fragment_type_name.starts_with("__") {
+            if visitor_context.schema.type_by_name(fragment_type_name).is_none() && !is_introspection_type_name(fragment_type_name) {
                 user_context.report_error(ValidationError {
                     error_code: self.error_code(),
                     locations: vec![inline_fragment.position],
@@ -69,7 +85,7 @@ impl<'a> OperationVisitor<'a, ValidationErrorContext> for KnownTypeNames {
     ) {
         let base_type = variable_definition.var_type.inner_type();
 
-        if visitor_context.schema.type_by_name(base_type).is_none() && !base_type.starts_with("__") {
+        if visitor_context.schema.type_by_name(base_type).is_none() && !is_introspection_type_name(base_type) {
             user_context.report_error(ValidationError {
                 error_code: self.error_code(),
                 locations: vec![variable_definition.position],
